@@ -210,7 +210,7 @@ def plan_C10(ck):
         return
     # the same kind of cases with every interleaving decision taken by the harness' scheduler
     stats = os.path.join(ck.workdir, "ctl-stats.ndjson")
-    ck.traces(cf.controlled(cf.parallel_cases(ck.seed + 310, 40 if q else 1200, 4, "C10ctl"), ck.seed + 311), ["C10"],
+    ck.traces(cf.controlled(cf.parallel_cases(ck.seed + 310, 40 if q else 1200, 4, "C10ctl", par_kernels_on_seq=0.7), ck.seed + 311), ["C10"],
               tag="c10ctl", nontrivial=cf.nontrivial_world, timeout_ms=120000, env={"FSL_CTL_STATS": stats})
     try:
         st = [json.loads(l) for l in open(stats)]
@@ -219,6 +219,7 @@ def plan_C10(ck):
     ck.ev.cov["controlled_executions"] = len(st)
     ck.ev.cov["controlled_schedule_points"] = sum(x["grants"] for x in st)
     ck.ev.cov["controlled_points_inside_work_items"] = sum(x["inner"] for x in st)
+    ck.ev.cov["controlled_points_inside_kernels"] = sum(x.get("kernel", 0) for x in st)
     if not st or sum(x["inner"] for x in st) == 0:
         raise vlib.MachineryError("controlled flow executions recorded no schedule point inside a work item (hooks not compiled in?)")
     if q and ck.violations:
